@@ -401,4 +401,68 @@ example (env : Nat → Nat → Nat) (fuel : Nat) :
   obtain ⟨n, h, _⟩ := compile_correct_x env 8 fuel demoBreak _ (by decide) (by decide) (by decide) hc
   exact ⟨n, h⟩
 
+/-! tuple assignment (`Stmt.tassign`, part of `compileX` / `execX`, covered by `compile_correct_x`): all
+    right-hand sides are evaluated left to right, each into its own temporary register that stays
+    allocated; then the stores happen left to right, each temporary released after its store — the
+    order the real compiler uses, and Go's semantics -/
+def demoTuple : Prog :=
+  { decls := [false, true, false],     -- v0, reg_v1, v2
+    body := .seq (.tassign [(0, .lit 10)]) (.seq (.tassign [(1, .lit 13)])
+      (.seq (.tassign [(0, .var 1), (1, .var 0)])                       -- v0, reg_v1 = reg_v1, v0
+      (.seq (.iowrite 0 (.var 0)) (.seq (.iowrite 0 (.var 1))
+      (.seq (.tassign [(0, .add (.var 0) (.var 1)), (1, .var 0), (2, .mul (.var 1) (.lit 2))])
+      (.seq (.iowrite 0 (.var 0)) (.seq (.iowrite 0 (.var 1)) (.seq (.iowrite 0 (.var 2)) .skip)))))))) }
+
+example : scopedProg demoTuple = true ∧ noStray demoTuple.body = true ∧
+    runCode (fun _ _ => 0) 8 ((compileXP demoTuple).getD []) 100
+      = ([(0, 13), (0, 10), (0, 23), (0, 13), (0, 20)], true) := by decide
+
+/-- the simulation lemma's tuple-assignment case on its own: the code of `x1, …, xk = e1, …, ek` -/
+theorem stmt_simulation_tuple (env : Nat → Nat → Nat) (w fuel : Nat) (ls : List Loc) (ps : List (Nat × Expr)) :
+    StmtOKX env w ls fuel (.tassign ps) :=
+  stmtOKX_tassign env w fuel ls ps
+
+/-! `x1, … := e1, …` (`Stmt.define`, memory names; part of `compileX` / `execX`, covered by
+    `compile_correct_x`): the right-hand sides are evaluated in the scope *before* the new variables
+    (so `x := x + 1` in a nested block reads the outer `x`), then every new variable gets a fresh
+    memory cell of its block (`blockLocs`, released like a `var` of that block) and is stored with
+    `r2m`.  The program of the `:=` regression (commit 96ceb1e): Go writes 5, 7. -/
+def demoDefine : Prog :=
+  { decls := [false],
+    body := .seq (.tassign [(0, .lit 7)])
+      (.seq (.ifThen (.eq (.var 0) (.lit 7))
+          (.seq (.define [(1, .lit 5)]) (.seq (.iowrite 0 (.var 1)) .skip)))
+        (.seq (.iowrite 0 (.var 0)) .skip)) }
+
+example : scopedProg demoDefine = true ∧ noStray demoDefine.body = true ∧
+    allLocs demoDefine = [.mem 0, .mem 1] ∧
+    runCode (fun _ _ => 0) 8 ((compileXP demoDefine).getD []) 100 = ([(0, 5), (0, 7)], true) := by decide
+
+/-- the simulation lemma's `:=` case on its own -/
+theorem stmt_simulation_define (env : Nat → Nat → Nat) (w fuel : Nat) (ls : List Loc) (ps : List (Nat × Expr)) :
+    StmtOKX env w ls fuel (.define ps) :=
+  stmtOKX_define env w fuel ls ps
+
+/-! `:=` of a name the current block already declares is refused (visiter.go "Already defined variable",
+    live since /repo a87efcf — also the partial re-declaration `x, y := …` that Go accepts): `compileXP`
+    returns `none` for such a program (`redeclProg`), so `compile_correct_x` says nothing about it, and
+    every program `compileXP` accepts is free of it. A `:=` of the same *name* in a nested block is a new
+    variable (a different index) and stays accepted (`demoDefine`). -/
+theorem compile_refuses_redeclare (p : Prog) (h : redeclProg p = true) : compileXP p = none := by
+  unfold compileXP; rw [h]; rfl
+
+theorem compile_accepts_no_redeclare (p : Prog) (code : List Instr) (h : compileXP p = some code) :
+    redeclProg p = false ∧ compileXBody p = some code :=
+  ⟨(compileXP_some h).2, (compileXP_some h).1⟩
+
+/-- `var x uint8; x, y := 5, 6` (corpus 14), `x := 5` (corpus 16), and a re-declaration inside a loop body -/
+def demoRedeclare : Prog :=
+  { decls := [false], body := .seq (.define [(0, .lit 5), (1, .lit 6)]) (.seq (.iowrite 0 (.var 0)) .skip) }
+
+example : compileXP demoRedeclare = none ∧ (compileXBody demoRedeclare).isSome = true ∧
+    compileXP { decls := [false], body := .define [(0, .lit 5)] } = none ∧
+    compileXP { decls := [], body := .loop none (.seq (.define [(0, .lit 1)]) (.seq (.define [(1, .lit 2), (0, .lit 3)]) .brk)) } = none ∧
+    (compileXP { decls := [], body := .loop none (.seq (.define [(0, .lit 1)]) (.seq (.define [(1, .lit 2)]) .brk)) }).isSome = true := by
+  decide
+
 end BMV.Props.C12
